@@ -332,7 +332,9 @@ func TestC20(t *testing.T) {
 			if len(stored) < 250 && !failed {
 				stored = append(stored, d)
 			}
-			if strings.IndexFunc(strings.ReplaceAll(d.id, pfx, ""), func(r rune) bool { return r > 127 || !(r >= 'a' && r <= 'z' || r >= 'A' && r <= 'Z' || r >= '0' && r <= '9') }) >= 0 || len(d.data) > 1024 {
+			if strings.IndexFunc(strings.ReplaceAll(d.id, pfx, ""), func(r rune) bool {
+				return r > 127 || !(r >= 'a' && r <= 'z' || r >= 'A' && r <= 'Z' || r >= '0' && r <= '9')
+			}) >= 0 || len(d.data) > 1024 {
 				stats.Nontriv(d.id+string(d.data), map[string]any{"id": d.id, "data_bytes": len(d.data), "tags": d.tags, "headers": d.headers, "timeout": d.timeout, "written_via": map[bool]string{true: "grpc", false: "http"}[d.viaGrpc]})
 			}
 			stats.Class("promise-roundtrip")
@@ -436,25 +438,45 @@ func TestC20(t *testing.T) {
 					fail("HTTP create schedule %q answered %d %s", sid, res.Code, truncate(string(res.Body), 200))
 				}
 			}
+			// a companion schedule with other tags that falls due in the same sweep: what one schedule is configured
+			// with must not leak into the promises of the other
+			sid2, ptags2 := sid+"~2", map[string]string{"companion": "yes", "k": genId(rt, "ptag2")}
+			if _, err := g.Schedules.CreateSchedule(ctx, &pb.CreateScheduleRequest{Id: sid2, Cron: "* * * * * *", PromiseId: tmpl, PromiseTimeout: 3600_000, PromiseTags: ptags2}); err != nil {
+				fail("gRPC create schedule %q: %v", sid2, err)
+			}
 			rs, err := g.Schedules.ReadSchedule(ctx, &pb.ReadScheduleRequest{Id: sid})
 			if err != nil || rs.Schedule.Id != sid || rs.Schedule.Description != desc || rs.Schedule.PromiseId != tmpl || string(rs.Schedule.PromiseParam.GetData()) != string(pdata) || !eqMap(rs.Schedule.PromiseTags, ptags) {
 				fail("schedule %q read back as %v %v", sid, rs, err)
 			}
 			// wait for a firing: a promise tagged with the schedule id whose id is <schedule id>|<timestamp>
-			var found *pb.Promise
+			var found, found2 *pb.Promise
 			deadline := time.Now().Add(5 * time.Second)
-			for time.Now().Before(deadline) && found == nil {
+			for time.Now().Before(deadline) && (found == nil || found2 == nil) {
 				sr, err := g.Promises.SearchPromises(ctx, &pb.SearchPromisesRequest{Id: "*", Tags: map[string]string{"resonate:invocation": "true"}, Limit: 100})
 				if err == nil {
 					for _, p := range sr.Promises {
-						if p.Tags["resonate:schedule"] == sid {
+						// (found by the id the template gives them, not by the marker tag that is itself under test)
+						if strings.HasPrefix(p.Id, sid+"|") {
 							found = p
+						}
+						if strings.HasPrefix(p.Id, sid2+"|") {
+							found2 = p
 						}
 					}
 				}
 				time.Sleep(150 * time.Millisecond)
 			}
 			_, _ = g.Schedules.DeleteSchedule(ctx, &pb.DeleteScheduleRequest{Id: sid})
+			_, _ = g.Schedules.DeleteSchedule(ctx, &pb.DeleteScheduleRequest{Id: sid2})
+			if found2 != nil {
+				want2 := map[string]string{"resonate:schedule": sid2, "resonate:invocation": "true"}
+				for k, v := range ptags2 {
+					want2[k] = v
+				}
+				if !eqMap(found2.Tags, want2) {
+					fail("promise created by schedule %q carries tags %q, want %q (schedule %q fired in the same sweep)", sid2, found2.Tags, want2, sid)
+				}
+			}
 			if found == nil {
 				fail("schedule %q did not fire within 5s", sid)
 			} else {
